@@ -199,4 +199,9 @@ def cases(tier):
         for how in ("flip", "truncate", "wrong-key", "wrong-kind") + tuple("flip-tag%d" % k for k in range(10)):
             cs.append(dict(name="tamper[%s,%s]" % (how, k), fn=h_tamper, args=(k, how, lmax), keep_samples=12))
         cs.append(dict(name="sweep[%s]" % k, fn=h_concrete_lengths, args=(k,)))
+        # large media: the same obligations with the length anywhere up to 1 MiB (2 MiB thorough)
+        big = (1 << 20) if tier == "quick" else (1 << 21)
+        cs.append(dict(name="layout[%s,L<=%d]" % (k, big), fn=h_layout, args=(k, big), timeout_s=300))
+        cs.append(dict(name="ref->lib[%s,L<=%d]" % (k, big), fn=h_ref_to_lib, args=(k, big), timeout_s=300))
+        cs.append(dict(name="roundtrip[%s,L<=%d]" % (k, big), fn=h_roundtrip, args=(k, big), timeout_s=300))
     return cs
